@@ -2,6 +2,7 @@ package sim
 
 import (
 	"fmt"
+	"os"
 	"sort"
 	"strings"
 	"testing/synctest"
@@ -9,6 +10,7 @@ import (
 	hg "github.com/mosaicnetworks/babble/src/hashgraph"
 	"github.com/mosaicnetworks/babble/src/net"
 	_state "github.com/mosaicnetworks/babble/src/node/state"
+	"github.com/mosaicnetworks/babble/src/peers"
 )
 
 /*******************************************************************************
@@ -47,12 +49,35 @@ func (c *Cluster) checkSuspendRule(a *SimNode, before _state.State) {
 	nv := core.Validators().Len()
 	limit := a.conf.SuspendLimit
 	tooMany := und > limit*nv
-	evicted := h.LastConsensusRound != nil && core.RemovedRound() > 0 && core.RemovedRound() > core.AcceptedRound() && *h.LastConsensusRound >= core.RemovedRound()
+	evictedImpl := h.LastConsensusRound != nil && core.RemovedRound() > 0 && core.RemovedRound() > core.AcceptedRound() && *h.LastConsensusRound >= core.RemovedRound()
+	// removal according to the harness's validator-set model (replay of the
+	// committed receipts): the node was a validator, the set in force at its last
+	// consensus round does not contain it, and no later set takes it back
+	evicted := false
+	if h.LastConsensusRound != nil && !a.ffDone && !a.isObserver {
+		lcr := *h.LastConsensusRound
+		if !contains(c.vs.at(lcr), a.pubHex) {
+			was, again := false, false
+			for _, r := range c.vs.rounds {
+				in := contains(c.vs.sets[r], a.pubHex)
+				if r <= lcr && in {
+					was = true
+				}
+				if r > lcr && in {
+					again = true
+				}
+			}
+			evicted = was && !again
+		}
+	}
 	after := a.node.GetState()
 	if (tooMany || evicted) && after == _state.Babbling {
-		c.violate("C17", "auto-suspend", "not-suspended-past-limit", "node %d keeps babbling although %d undetermined events were created since it started (limit %d x %d validators) / evicted=%v", a.idx, und, limit, nv, evicted)
+		c.violate("C17", "auto-suspend", "not-suspended-past-limit", "node %d keeps babbling although %d undetermined events were created since it started (limit %d x %d validators) / removed from the validator set in force at its last consensus round=%v", a.idx, und, limit, nv, evicted)
 	}
-	if before == _state.Babbling && after == _state.Suspended && !(tooMany || evicted) {
+	if evicted && after == _state.Suspended {
+		c.stats.probe("c17-suspended-after-removal")
+	}
+	if before == _state.Babbling && after == _state.Suspended && !(tooMany || evicted || evictedImpl) {
 		c.violate("C17", "auto-suspend", "suspended-without-cause", "node %d suspended itself with %d new undetermined events (limit %d x %d validators), not evicted", a.idx, und, limit, nv)
 	}
 	if after == _state.Suspended && before == _state.Babbling {
@@ -96,6 +121,28 @@ func (c *Cluster) nonBabblingStep(s *Step) {
 			n.explicitSuspend = true
 			c.stats.probe("c17-runtime-suspend")
 		}
+		return
+	case "leave-restart":
+		// a persistent validator asks to leave, gossips once (the request is now in
+		// one of its events), is killed and restarted with bootstrap: the removal
+		// will be decided while the running process holds no promise for it
+		n := c.nodeAt(s.A)
+		if n == nil || !n.running() || n.state() != _state.Babbling || n.storeKind != "badger" || n.leaving || n.isObserver || n.ffDone {
+			return
+		}
+		if len(c.vs.latest()) < 3 || !n.inLatestModelSet() {
+			return
+		}
+		c.exec(&Step{Op: "leave", A: n.idx})
+		for _, m := range c.liveBabbling() {
+			if m != n && !m.silent {
+				c.exec(&Step{Op: "tick", A: n.idx, B: m.idx})
+				break
+			}
+		}
+		c.exec(&Step{Op: "crash", A: n.idx, Kind: "now"})
+		c.exec(&Step{Op: "restart", A: n.idx})
+		c.stats.probe("c17-leave-then-restart")
 		return
 	case "shutdown":
 		if n := c.nodeAt(s.A); n != nil && n.running() && n.state() == _state.Suspended {
@@ -245,6 +292,16 @@ func (c *Cluster) checkSyncResponse(t *SimNode, known map[uint32]int, limit int,
 	store := t.core().Hashgraph().Store
 	rep := store.RepertoireByID()
 	sent := map[string]bool{}
+	if t.ffDone {
+		// one class (see known_findings.json): a reset node's frame events carry no
+		// wire information, whichever clause of this check meets them first
+		for _, we := range resp.Events {
+			if _, ok := rep[we.Body.CreatorID]; !ok && we.Body.CreatorID == 0 {
+				c.violate("C17", "suspended-serves-sync", "reset-node-serves-frame-events-without-wire-info", "suspended node %d (reset by fast-sync) returned an event of its frame without wire information (creator id 0, index %d): the requester cannot decode it", t.idx, we.Body.Index)
+				return
+			}
+		}
+	}
 	for _, we := range resp.Events {
 		p, ok := rep[we.Body.CreatorID]
 		if !ok {
@@ -264,8 +321,42 @@ func (c *Cluster) checkSyncResponse(t *SimNode, known map[uint32]int, limit int,
 		de := c.dag.events[h]
 		if de != nil {
 			for _, par := range []string{de.SelfP, de.OtherP} {
+				if par != "" && lack[par] && !sent[par] && debugTrace {
+					for i, we := range resp.Events {
+						pp := rep[we.Body.CreatorID]
+						nm := "?"
+						if pp != nil && c.byPub[pp.PubKeyString()] != nil {
+							nm = fmt.Sprintf("n%d", c.byPub[pp.PubKeyString()].idx)
+						}
+						fmt.Fprintf(os.Stderr, "   resp[%d] = %s#%d\n", i, nm, we.Body.Index)
+					}
+					for id, k := range known {
+						fmt.Fprintf(os.Stderr, "   requester knows creator %d up to %d\n", id, k)
+					}
+					for _, pp := range rep {
+						evs, err := store.ParticipantEvents(pp.PubKeyString(), -1)
+						first := -1
+						if len(evs) > 0 {
+							if e0, err := store.GetEvent(evs[0]); err == nil {
+								first = e0.Index()
+							}
+						}
+						fmt.Fprintf(os.Stderr, "   node lists %d events of n%d from index %d (err %v), creator id %d\n", len(evs), c.byPub[pp.PubKeyString()].idx, first, err, pp.ID())
+					}
+				}
+				if par != "" && lack[par] && !sent[par] && t.ffDone {
+					// a reset node cannot serve the events of its frame (no wire
+					// information, see known_findings.json): it skips them, so their
+					// children come first - the same class, met from the other side
+					if pe, err := store.GetEvent(par); err == nil {
+						if _, _, _, cid := pe.SimWireInfo(); cid == 0 {
+							c.violate("C17", "suspended-serves-sync", "reset-node-serves-frame-events-without-wire-info", "suspended node %d (reset by fast-sync) returned event %s whose parent %s is an event of its frame without wire information: the requester cannot use it", t.idx, short(h), short(par))
+							return
+						}
+					}
+				}
 				if par != "" && lack[par] && !sent[par] {
-					c.violate("C17", "suspended-serves-sync", "sync-response-not-topological", "suspended node %d returned event %s before its parent %s", t.idx, short(h), short(par))
+					c.violate("C17", "suspended-serves-sync", "sync-response-not-topological", "suspended node %d returned event %s (n%d#%d) before its parent %s (n%d#%d, position in the response: %d of %d)", t.idx, short(h), c.byPub[de.Creator].idx, de.Index, short(par), c.byPub[c.dag.events[par].Creator].idx, c.dag.events[par].Index, posIn(resp.Events, c.dag.events[par], rep), len(resp.Events))
 					return
 				}
 			}
@@ -289,6 +380,23 @@ func init() {
 			cfg.FastSyncLate = r.Bool(0.6)
 			cfg.PJoin = 0.02
 			cfg.MaxJoins = 2
+			if r.Bool(0.3) {
+				// persistent validators that leave, give up waiting (short timeout) or are
+				// killed, and come back: their removal is then decided while the running
+				// process holds no promise for it
+				for i := range cfg.Stores {
+					if r.Bool(0.6) {
+						cfg.Stores[i] = "badger"
+					}
+				}
+				cfg.PLeave = 0.03
+				cfg.MaxLeaves = 2
+				cfg.MaxJoins = 4
+				cfg.PJoin = 0.05
+				cfg.PCrash = 0.01
+				cfg.JoinTimeoutMs = []int{20, 200, 2000}[r.Intn(3)]
+				cfg.FastSyncLate = false
+			}
 			if r.Bool(0.5) {
 				// quorum-less runs growing the undetermined set
 				cfg.SuspendLimit = []int{2, 5, 10, 20}[r.Intn(4)]
@@ -318,10 +426,26 @@ func init() {
 							return &Step{Op: "byz", Kind: "shutdown", A: n.idx}
 						}
 					}
+				case x == 2 && c.cfg.PLeave > 0:
+					for _, n := range c.liveBabbling() {
+						if n.storeKind == "badger" && !n.leaving && c.gen.Bool(0.5) {
+							return &Step{Op: "byz", Kind: "leave-restart", A: n.idx}
+						}
+					}
 				}
 				return &Step{Op: "byz", Kind: "req", A: c.gen.Intn(16), N: c.gen.Intn(5)}
 			}
 			clusterRun(c, spec)
 		},
 	}
+}
+
+// posIn: position of an event in a wire response (-1: not in it).
+func posIn(evs []hg.WireEvent, de *DagEvent, rep map[uint32]*peers.Peer) int {
+	for i, we := range evs {
+		if p, ok := rep[we.Body.CreatorID]; ok && p.PubKeyString() == de.Creator && we.Body.Index == de.Index {
+			return i
+		}
+	}
+	return -1
 }
